@@ -59,3 +59,83 @@ package filecachepb
 //@   ensures every-day-reads-its-own-interval: x != nil && err == nil ==> c != nil && c.Week != nil &&
 //@             readDay(c.Week[0], x.Week.Sun) && readDay(c.Week[1], x.Week.Mon) && readDay(c.Week[2], x.Week.Tue) && readDay(c.Week[3], x.Week.Wed) &&
 //@             readDay(c.Week[4], x.Week.Thu) && readDay(c.Week[5], x.Week.Fri) && readDay(c.Week[6], x.Week.Sat)
+
+// ---------------------------------------------------------------------------
+// C14, file-cache codec, access settings: what is written for a profile's
+// access settings is those settings - every allowed and blocked network and
+// ASN, in order, and the blocked-name rules - and what is read back is what
+// was stored.  In particular settings are never dropped because some of the
+// lists are empty.
+
+//@ import access github.com/AdguardTeam/AdGuardDNS/internal/access
+//@ import netip net/netip
+//@ import geoip github.com/AdguardTeam/AdGuardDNS/internal/geoip
+
+// storedNet(r, p): the stored range r is the prefix p.
+//@ pred storedNet(r *CidrRange, p netip.Prefix) = r != nil && r.Prefix == wrap(prefixBits(p), uint32) && allocated(arr(r.Address)) && ipBytes[arr(r.Address)] == prefixAddr(p)
+//@ pred validNets(nets []netip.Prefix) = forall i int :: 0 <= i && i < len(nets) ==> addrValid(prefixAddr(nets[i]))
+
+//@ func prefixesToProtobuf
+//@   property C14
+//@   requires validNets(nets)
+//@   modifies heap, ipBytes
+//@   preserves access.ProfileConfig.*, allelems(netip.Prefix), allelems(geoip.ASN), allelems(string), allelems(uint32), CidrRange.*, allelems(*CidrRange), Access.*
+//@   ensures earlier-ranges-keep-their-addresses: forall k int :: old(allocated(k)) ==> ipBytes[k] == old(ipBytes[k])
+//@   ensures every-network-in-order: len(cidrs) == len(nets) && (forall i int :: 0 <= i && i < len(nets) ==> storedNet(cidrs[i], nets[i]))
+//@   ensures len(nets) > 0 ==> fresh(cidrs)
+//@   loop 1 invariant -1 <= #i && #i < len(nets) && len(cidrs) == #i + 1 && (#i >= 0 ==> fresh(cidrs)) && (#i < 0 ==> arr(cidrs) == 0)
+//@   loop 1 invariant forall j int :: 0 <= j && j <= #i ==> storedNet(cidrs[j], nets[j]) && fresh(cidrs[j])
+//@   loop 1 invariant forall k int :: old(allocated(k)) ==> ipBytes[k] == old(ipBytes[k])
+
+//@ func asnToInternal
+//@   property C14
+//@   modifies heap
+//@   preserves Access.*, allelems(uint32), allelems(*CidrRange), CidrRange.*, allelems(string), allelems(byte), allelems(netip.Prefix), allelems(geoip.ASN), access.ProfileConfig.*
+//@   ensures every-asn-in-order: len(out) == len(asns) && (forall i int :: 0 <= i && i < len(asns) ==> out[i] == asns[i])
+//@   loop 1 invariant -1 <= #i && #i < len(asns) && len(out) == #i + 1 && (#i >= 0 ==> fresh(out)) && (#i < 0 ==> arr(out) == 0)
+//@   loop 1 invariant forall j int :: 0 <= j && j <= #i ==> out[j] == asns[j]
+
+//@ func cidrRangeToInternal
+//@   property C14
+//@   requires forall i int :: 0 <= i && i < len(cidrs) ==> cidrs[i] != nil && (len(cidrs[i].Address) == 4 || len(cidrs[i].Address) == 16)
+//@   modifies heap
+//@   preserves Access.*, allelems(uint32), allelems(*CidrRange), CidrRange.*, allelems(string), allelems(byte), allelems(netip.Prefix), allelems(geoip.ASN), access.ProfileConfig.*
+//@   ensures every-network-as-stored: len(out) == len(cidrs) && (forall i int :: 0 <= i && i < len(cidrs) ==> out[i] == prefixFrom(addrFromBytes(strof(cidrs[i].Address)), cidrs[i].Prefix))
+//@   loop 1 invariant -1 <= #i && #i < len(cidrs) && len(out) == #i + 1 && (#i >= 0 ==> fresh(out)) && (#i < 0 ==> arr(out) == 0)
+//@   loop 1 invariant forall j int :: 0 <= j && j <= #i ==> out[j] == prefixFrom(addrFromBytes(strof(cidrs[j].Address)), cidrs[j].Prefix)
+
+//@ func accessToProtobuf
+//@   property C14
+//@   requires c != nil ==> validNets(c.AllowedNets) && validNets(c.BlockedNets)
+//@   modifies heap, ipBytes
+//@   preserves access.ProfileConfig.*, allelems(netip.Prefix), allelems(geoip.ASN), allelems(string)
+//@   ensures no-settings-no-message: c == nil ==> ac == nil
+//@   ensures settings-are-always-written: c != nil ==> ac != nil && fresh(ac)
+//@   ensures every-asn-in-order: c != nil ==> len(ac.AllowlistAsn) == len(c.AllowedASN) && len(ac.BlocklistAsn) == len(c.BlockedASN) &&
+//@             (forall i int :: 0 <= i && i < len(c.AllowedASN) ==> ac.AllowlistAsn[i] == c.AllowedASN[i]) &&
+//@             (forall i int :: 0 <= i && i < len(c.BlockedASN) ==> ac.BlocklistAsn[i] == c.BlockedASN[i])
+//@   ensures every-network-in-order: c != nil ==> len(ac.AllowlistCidr) == len(c.AllowedNets) && len(ac.BlocklistCidr) == len(c.BlockedNets) &&
+//@             (forall i int :: 0 <= i && i < len(c.AllowedNets) ==> storedNet(ac.AllowlistCidr[i], c.AllowedNets[i])) &&
+//@             (forall i int :: 0 <= i && i < len(c.BlockedNets) ==> storedNet(ac.BlocklistCidr[i], c.BlockedNets[i]))
+//@   ensures the-name-rules-as-they-are: c != nil ==> ac.BlocklistDomainRules == c.BlocklistDomainRules
+//@   loop 1 invariant -1 <= #i && #i < len(c.AllowedASN) && len(allowedASNs) == #i + 1 && (#i >= 0 ==> fresh(allowedASNs)) && (#i < 0 ==> arr(allowedASNs) == 0)
+//@   loop 1 invariant forall j int :: 0 <= j && j <= #i ==> allowedASNs[j] == c.AllowedASN[j]
+//@   loop 2 invariant -1 <= #i && #i < len(c.BlockedASN) && len(blockedASNs) == #i + 1 && (#i >= 0 ==> fresh(blockedASNs)) && (#i < 0 ==> arr(blockedASNs) == 0) && len(allowedASNs) == len(c.AllowedASN) && (arr(allowedASNs) == 0 || (allocated(arr(allowedASNs)) && arr(blockedASNs) != arr(allowedASNs)))
+//@   loop 2 invariant forall j int :: 0 <= j && j <= #i ==> blockedASNs[j] == c.BlockedASN[j]
+//@   loop 2 invariant forall j int :: 0 <= j && j < len(c.AllowedASN) ==> allowedASNs[j] == c.AllowedASN[j]
+
+//@ pred wellFormedRanges(cidrs []*CidrRange) = forall i int :: 0 <= i && i < len(cidrs) ==> cidrs[i] != nil && (len(cidrs[i].Address) == 4 || len(cidrs[i].Address) == 16)
+//@ pred readNets(nets []netip.Prefix, cidrs []*CidrRange) = len(nets) == len(cidrs) && (forall i int :: 0 <= i && i < len(cidrs) ==> nets[i] == prefixFrom(addrFromBytes(strof(cidrs[i].Address)), cidrs[i].Prefix))
+//@ pred readASNs(asns []geoip.ASN, stored []uint32) = len(asns) == len(stored) && (forall i int :: 0 <= i && i < len(stored) ==> asns[i] == stored[i])
+
+//@ func (*Access).toInternal
+//@   property C14
+//@   nilrecv
+//@   requires x != nil ==> wellFormedRanges(x.AllowlistCidr) && wellFormedRanges(x.BlocklistCidr)
+//@   modifies heap
+//@   preserves Access.*, allelems(uint32), allelems(*CidrRange), CidrRange.*, allelems(string), allelems(byte)
+//@   ensures no-message-no-restrictions: x == nil ==> istype(a, access.EmptyProfile)
+//@   ensures what-was-stored-is-what-applies: x != nil ==> isptr(a, access.DefaultProfile) && asptr(a, access.DefaultProfile) != nil &&
+//@             readNets(asptr(a, access.DefaultProfile).allowedNets, x.AllowlistCidr) && readNets(asptr(a, access.DefaultProfile).blockedNets, x.BlocklistCidr) &&
+//@             readASNs(asptr(a, access.DefaultProfile).allowedASN, x.AllowlistAsn) && readASNs(asptr(a, access.DefaultProfile).blockedASN, x.BlocklistAsn) &&
+//@             asptr(a, access.DefaultProfile).blocklistDomainRules == x.BlocklistDomainRules
